@@ -17,14 +17,16 @@ RULE = ("cases = persistent archive configuration (file x {pickle, json, source}
         "write calls additionally after half and after all-but-one of the bytes (partial write). Oracle, in a NEW process opening the archive the way a "
         "user does: open, dict(items()), len, keys and a cached open + load() all succeed and agree; every key touched by the operation holds its "
         "previous value (or absence) or the new one; every untouched key is unchanged; no key that was never stored appears. The enumeration over k is "
-        "complete per (state, operation) (exhaustive: true). non-trivial = crash point strictly inside the operation (1 < k <= N) on a non-empty "
+        "complete per (state, operation) (exhaustive: true). One stratum per (configuration, operation kind); an extra SECOND-GENERATION stratum per configuration first kills "
+        "one operation at a drawn point, verifies the debris, optionally applies ordinary operations on top, and then enumerates every kill point of a second "
+        "operation on that state (crash leftovers must not break later operations). non-trivial = crash point strictly inside the operation (1 < k <= N) on a non-empty "
         "archive; distinct = (config, operation kind, kind of the interrupted call, k, N)")
 ASSUMPTIONS = ['process kill, not power loss: what was written before the kill is visible afterwards (page cache), no reordering of un-fsynced writes',
                'crash points are the libc calls of the interposed set (list taken from nm -D of libpython and libsqlite3); the thorough tier cross-checks the set against strace',
                'values are small and within each codec domain; keys are alias-free and session-stable',
                'one operation per crash experiment; the verifying open may itself rewrite the archive (as any user open does)']
 
-N = {'quick': 48, 'thorough': 4000}
+N = {'quick': 120, 'thorough': 4000}
 SHARDS = {'quick': 4, 'thorough': 16}
 TIME_BUDGET = {'quick': 150, 'thorough': 3000}
 CONFIGS = A.PERSISTENT
@@ -41,8 +43,27 @@ def small_values(cfg):
     return st.one_of(V.ints(), V.strs(False), st.lists(V.ints(), max_size=2).map(lambda xs: ['l', xs]), st.lists(V.ints(), max_size=2).map(lambda xs: ['t', xs]), V.NONE)
 
 
+def draw_op(draw, kind, ki, vi, focus=None):
+    k = (lambda: focus) if focus is not None else (lambda: draw(ki))
+    if kind == 'set':
+        return ['set', k(), draw(vi)]
+    if kind == 'upd':
+        return ['upd', [[k(), draw(vi)]] + [[draw(ki), draw(vi)] for _ in range(draw(st.integers(0, 2)))]]
+    if kind in ('del', 'pop'):
+        return [kind, k()]
+    if kind == 'setdef':
+        return ['setdef', k(), draw(vi)]
+    if kind in ('popitem', 'clear', 'open', 'open_cached'):
+        return [kind]
+    if kind in ('dump', 'sync'):
+        return [kind, [[k(), draw(vi)]] + [[draw(ki), draw(vi)] for _ in range(draw(st.integers(0, 2)))]]
+    if kind == 'dumpk':
+        return [kind, [[k(), draw(vi)]] + [[draw(ki), draw(vi)] for _ in range(draw(st.integers(0, 2)))], draw(st.lists(ki, min_size=1, max_size=2))]
+    return ['open_seed', [[k(), draw(vi)]] + [[draw(ki), draw(vi)] for _ in range(draw(st.integers(0, 1)))]]
+
+
 @st.composite
-def cases(draw, cfg):
+def cases(draw, cfg, kind=None):
     pool = draw(A.key_pools(cfg, n=(2, 4), stable_only=True))
     nk = len(pool)
     vals = draw(st.lists(small_values(cfg), min_size=3, max_size=4))
@@ -56,28 +77,29 @@ def cases(draw, cfg):
             prior.append(['del', draw(ki)])
         else:
             prior.append(['upd', [[draw(ki), draw(vi)] for _ in range(draw(st.integers(1, 2)))]])
-    kind = draw(st.sampled_from(OPKINDS))
-    if kind == 'set':
-        op = ['set', draw(ki), draw(vi)]
-    elif kind == 'upd':
-        op = ['upd', [[draw(ki), draw(vi)] for _ in range(draw(st.integers(1, 3)))]]
-    elif kind in ('del', 'pop'):
-        op = [kind, draw(ki)]
-    elif kind == 'setdef':
-        op = ['setdef', draw(ki), draw(vi)]
-    elif kind in ('popitem', 'clear', 'open', 'open_cached'):
-        op = [kind]
-    elif kind in ('dump', 'sync'):
-        op = [kind, [[draw(ki), draw(vi)] for _ in range(draw(st.integers(1, 3)))]]
-    elif kind == 'dumpk':
-        op = [kind, [[draw(ki), draw(vi)] for _ in range(draw(st.integers(1, 3)))], draw(st.lists(ki, min_size=1, max_size=2))]
-    else:
-        op = ['open_seed', [[draw(ki), draw(vi)] for _ in range(draw(st.integers(1, 2)))]]
-    return {'cfg': cfg, 'keys': pool, 'vals': vals, 'prior': prior, 'op': op}
+    if kind == 'gen2':
+        # second generation: the prior state of the enumerated operation is itself the debris of a crashed operation
+        # (leftover staging / hidden directories, journals, temporary files), possibly followed by a few ordinary operations
+        focus = draw(ki)
+        prior = prior + [['set', focus, draw(vi)]]
+        op1 = draw_op(draw, draw(st.sampled_from(['del', 'pop', 'set', 'clear', 'upd', 'setdef', 'dump'])), ki, vi, focus)
+        prior2 = [['set', focus, draw(vi)]] if draw(st.booleans()) else []
+        if draw(st.integers(0, 3)) == 0:
+            prior2.append(['set', draw(ki), draw(vi)])
+        op2 = draw_op(draw, draw(st.sampled_from(['del', 'pop', 'set', 'clear', 'upd', 'open'])), ki, vi, focus if draw(st.integers(0, 9)) < 7 else None)
+        return {'cfg': cfg, 'keys': pool, 'vals': vals, 'prior': prior, 'op': op1, 'k1': draw(st.integers(0, 40)), 'prior2': prior2, 'op2': op2}
+    kind = kind or draw(st.sampled_from(OPKINDS))
+    return {'cfg': cfg, 'keys': pool, 'vals': vals, 'prior': prior, 'op': draw_op(draw, kind, ki, vi)}
 
 
 def strata(tier):
-    return [(c, cases(c)) for c in CONFIGS]
+    # one stratum per (configuration, operation kind) - every combination gets its own budget - plus a second-generation stratum per configuration
+    out = []
+    for c in CONFIGS:
+        for k in sorted(set(OPKINDS)):
+            out.append(('%s/%s' % (c, k), cases(c, k)))
+        out.append(('%s/gen2' % c, cases(c, 'gen2')))
+    return out
 
 
 # ------------------------------------------------------------ the operation (runs in the armed child)
@@ -228,10 +250,62 @@ def run_case(case):
         shutil.rmtree(base, ignore_errors=True)
 
 
+def enumerate_crashes(cfg, tmpl, base, S0, op, keys, vals, classes, nts, tagprefix='', label=''):
+    """dry run + every kill point of op on a copy of tmpl; returns (Discrepancy | None, runs)"""
+    opk = op[0]
+    S1 = expected_after(S0, op, keys, vals)
+    popitem = opk == 'popitem'
+    nonempty = bool(S0)
+    sub = tempfile.mkdtemp(prefix='e_', dir=base)
+    d0 = os.path.join(sub, 'D0')
+    shutil.copytree(tmpl, d0)
+    dry = shim.run_armed(lambda: perform(cfg, d0, op, keys, vals), d0, kill_at=0, log=True)
+    if dry['status'] == 'raised':
+        return Discrepancy('C13/%s%s/%s/operation-raised-without-crash' % (tagprefix, cfg, opk), label + dry['error'] + '\n' + dry.get('trace', '')), 1
+    n = dry['events']
+    log = dry['log']
+    obs = procs.in_fork(lambda: verify(cfg, d0))
+    d = judge(cfg, opk, obs, S0 if popitem else S1, S0 if popitem else S1, popitem, label + 'after the complete operation (no crash)')
+    if d is not None:
+        d.sig = d.sig.replace('C13/', 'C13/%snocrash/' % tagprefix, 1)
+        return d, 1
+    shutil.rmtree(d0, ignore_errors=True)
+    runs = 1
+    for k in range(1, n + 1):
+        ev = log[k - 1] if k - 1 < len(log) else (k, '?', '?')
+        modes = [0]
+        if ev[1] in ('write', 'pwrite', 'writev'):
+            modes += [1, 2]
+        for fm in modes:
+            dk = os.path.join(sub, 'D%d_%d' % (k, fm))
+            shutil.copytree(tmpl, dk)
+            r = shim.run_armed(lambda: perform(cfg, dk, op, keys, vals), dk, kill_at=k, frac_mode=fm)
+            runs += 1
+            where = label + 'killed before mutating call %d/%d (%s %s)%s' % (k, n, ev[1], _short(ev[2]), {0: '', 1: ' after half of its bytes', 2: ' after all but one byte'}[fm])
+            if r['status'] == 'raised':
+                return Discrepancy('C13/%s%s/%s/operation-raised-in-crash-run' % (tagprefix, cfg, opk), where + ': ' + r['error']), runs
+            obs = procs.in_fork(lambda: verify(cfg, dk))
+            d = judge(cfg, opk, obs, S0, S1 if S1 is not None else S0, popitem, where)
+            classes.append('event:' + ev[1])
+            if fm:
+                classes.append('partial_write')
+            if r['status'] == 'done':
+                classes.append('count_drift')     # fewer events than in the dry run (kept as a guard)
+            if d is not None:
+                d.sig = d.sig.replace('C13/', 'C13/%s' % tagprefix, 1) + '/at:' + _evclass(ev)
+                return d, runs
+            if nonempty and k > 1:
+                nts.append((tagprefix, cfg, opk, ev[1], k, n, fm))
+            shutil.rmtree(dk, ignore_errors=True)
+    shutil.rmtree(sub, ignore_errors=True)
+    return None, runs
+
+
 def _run(case, base):
     cfg, op = case['cfg'], case['op']
     opk = op[0]
-    classes = ['cfg:' + cfg, 'op:' + opk]
+    gen2 = 'op2' in case
+    classes = ['cfg:' + cfg, 'op:' + (opk if not gen2 else 'gen2')]
     keys = [A.build_key(s) for s in case['keys']]
     vals = [V.build(s) for s in case['vals']]
     tmpl = os.path.join(base, 'T')
@@ -247,61 +321,52 @@ def _run(case, base):
         procs.in_fork(mk)
         for p in case['prior']:
             A.model_write(S0, p, keys, vals)
-    S1 = expected_after(S0, op, keys, vals)
-    popitem = opk == 'popitem'
-    nonempty = bool(S0)
-    if nonempty:
+    if S0:
         classes.append('nonempty_prior')
-    # ---- dry run
-    d0 = os.path.join(base, 'D0')
-    shutil.copytree(tmpl, d0)
-    dry = shim.run_armed(lambda: perform(cfg, d0, op, keys, vals), d0, kill_at=0, log=True)
-    if dry['status'] == 'raised':
-        return [Discrepancy('C13/%s/%s/operation-raised-without-crash' % (cfg, opk), dry['error'] + '\n' + dry.get('trace', ''))], None, classes
-    n = dry['events']
-    log = dry['log']
-    out = []
-    obs = procs.in_fork(lambda: verify(cfg, d0))
-    d = judge(cfg, opk, obs, S1 if not popitem else S0, S1 if not popitem else S0, popitem, 'after the complete operation (no crash)') if not popitem else \
-        judge(cfg, opk, obs, S0, S0, True, 'after the complete operation (no crash)')
-    if d is not None:
-        d.sig = d.sig.replace('C13/', 'C13/nocrash/', 1)
-        return [d], None, classes
-    shutil.rmtree(d0, ignore_errors=True)
     nts = Multi()
-    runs = 0
-    for k in range(1, n + 1):
-        ev = log[k - 1] if k - 1 < len(log) else (k, '?', '?')
-        modes = [0]
-        if ev[1] in ('write', 'pwrite', 'writev'):
-            modes += [1, 2]
-        for fm in modes:
-            dk = os.path.join(base, 'D%d_%d' % (k, fm))
-            shutil.copytree(tmpl, dk)
-            r = shim.run_armed(lambda: perform(cfg, dk, op, keys, vals), dk, kill_at=k, frac_mode=fm)
-            runs += 1
-            where = 'killed before mutating call %d/%d (%s %s)%s' % (k, n, ev[1], _short(ev[2]), {0: '', 1: ' after half of its bytes', 2: ' after all but one byte'}[fm])
-            if r['status'] == 'raised':
-                out.append(Discrepancy('C13/%s/%s/operation-raised-in-crash-run' % (cfg, opk), where + ': ' + r['error']))
-                break
-            obs = procs.in_fork(lambda: verify(cfg, dk))
-            d = judge(cfg, opk, obs, S0, S1 if S1 is not None else S0, popitem, where)
-            classes.append('event:' + ev[1])
-            if fm:
-                classes.append('partial_write')
-            if r['status'] == 'done':
-                classes.append('count_drift')     # fewer events than in the dry run (random temp names do not change the count; kept as a guard)
-            if d is not None:
-                d.sig += '/at:' + _evclass(ev)
-                out.append(d)
-                break
-            if nonempty and k > 1:
-                nts.append((cfg, opk, ev[1], k, n, fm))
-            shutil.rmtree(dk, ignore_errors=True)
-        if out:
-            break
-    classes.append('crash_runs:%d' % min(runs // 10 * 10, 60))
-    nts.evals = runs + 1
+    out = []
+    if not gen2:
+        d, runs = enumerate_crashes(cfg, tmpl, base, S0, op, keys, vals, classes, nts)
+        if d is not None:
+            out.append(d)
+        classes.append('crash_runs:%d' % min(runs // 10 * 10, 60))
+        nts.evals = runs
+        return out, nts, classes
+    # ---- second generation: crash op1 once at a drawn point, then treat the debris as the prior state of op2
+    d1 = os.path.join(base, 'G1')
+    shutil.copytree(tmpl, d1)
+    dry = shim.run_armed(lambda: perform(cfg, d1, op, keys, vals), d1, kill_at=0)
+    shutil.rmtree(d1, ignore_errors=True)
+    if dry['status'] != 'done' or dry['events'] < 1:
+        nts.evals = 1
+        return out, nts, classes
+    k1 = 1 + case['k1'] % dry['events']
+    shutil.copytree(tmpl, d1)
+    r = shim.run_armed(lambda: perform(cfg, d1, op, keys, vals), d1, kill_at=k1, log=True)
+    where1 = 'generation 1: %r killed before mutating call %d/%d; ' % (op, k1, dry['events'])
+    obs = procs.in_fork(lambda: verify(cfg, d1))
+    S1 = expected_after(S0, op, keys, vals)
+    d = judge(cfg, opk, obs, S0, S1 if S1 is not None else S0, opk == 'popitem', where1)
+    runs = 2
+    if d is not None:
+        out.append(d)
+        nts.evals = runs
+        return out, nts, classes
+    C1 = dict(obs['items'][1])
+    if case['prior2']:
+        def mk2():
+            a = A.open_archive(cfg, d1, 'A')
+            for p in case['prior2']:
+                A.apply_write(a, p, keys, vals)
+        procs.in_fork(mk2)
+        for p in case['prior2']:
+            A.model_write(C1, p, keys, vals)
+        classes.append('gen2_with_ops_between')
+    classes.append('gen2_k1:%s' % ('inside' if 1 < k1 else 'first'))
+    d, r2 = enumerate_crashes(cfg, d1, base, C1, case['op2'], keys, vals, classes, nts, tagprefix='gen2/', label=where1 + 'then %r; generation 2: ' % (case['prior2'],))
+    if d is not None:
+        out.append(d)
+    nts.evals = runs + r2
     return out, nts, classes
 
 
@@ -333,6 +398,6 @@ def extra_passes(run, tier, i, n):
     run.extra['strace_guard_events_matched_1to1'] = total
 
 
-REQUIRED_CLASSES = ['nonempty_prior', 'partial_write', 'event:rename', 'event:unlink', 'event:write', 'event:mkdir', 'event:open-w', 'event:close-w', 'event:pwrite'] + \
+REQUIRED_CLASSES = ['op:gen2', 'gen2_with_ops_between', 'nonempty_prior', 'partial_write', 'event:rename', 'event:unlink', 'event:write', 'event:mkdir', 'event:open-w', 'event:close-w', 'event:pwrite'] + \
     ['cfg:' + c for c in CONFIGS] + ['op:' + o for o in set(OPKINDS)]
 TRIGGERS = {}
